@@ -54,12 +54,16 @@ class ProblemRoundTrip(Harness):
     shards = 4
     functions = ("ProblemExporter.extract_problem", "ProblemExporter.write_objects", "ProblemExporter.write_initial_state", "ProblemExporter.write_goal_state",
                  "PDDLFunction.state_representation", "GroundedPredicate.untyped_representation", "PDDLObject.__str__", "NumericalExpressionTree.to_pddl")
-    bound = {"quick": "all accepted problems of C05's grid (8 object lists x 12 inits x 9 goals)", "thorough": "same"}
+    bound = {"quick": "all accepted problems of C05's grid (8 object lists x 12 inits x 9 goals)", "thorough": "the same grid plus 1,500 seeded random problems (random fact subsets, fluent values incl. negative / fractional / many digits / exponent notation, random goals)"}
     rule = "problem text; non-trivial = has init or goal components; distinct by text"
 
     def inputs(self, tier, seed):
         for o, i, g in itertools.product(c05.OBJECT_LISTS, c05.INITS, c05.GOALS):
             yield {"text": c05._problem_text(o, i, g)}
+        if tier == "thorough":
+            import random
+            for t in c05.random_problems(random.Random(seed + 9), 1500):
+                yield {"text": t}
 
     def nontrivial_key(self, inp):
         return inp["text"] if "(p " in inp["text"] or "(= " in inp["text"] else None
